@@ -452,7 +452,7 @@ def check_synthesis(ctx, cirq, n):
     q0, q1, q2 = cirq.LineQubit.range(3)
     for i in range(n):
         u = rand_two_qubit(cirq, rng)
-        rep = {'lines': [{'matrix': repr(np.round(u, 9).tolist())}], 'theorem_or_correspondence': 'operation product via applyOps'}
+        rep = {'lines': [{'matrix': repr(u.tolist())}], 'theorem_or_correspondence': 'operation product via applyOps'}  # (full precision: the replay must be the same input)
         ctx.case(['synth', np.round(u, 6).tobytes().hex()[:40]], True)
         # CZ target
         partial, clean = rng.random() < 0.5, rng.random() < 0.5
@@ -485,7 +485,7 @@ def check_synthesis(ctx, cirq, n):
             got = lean_product(ctx, cirq, ops, [q0, q1])
             ctx.count('check', 'to_four_fsim')
             if not phase_close(got, u, 1e-5) or count_2q(ops) > 4:
-                ctx.report_witness('synth:fsim', 'decompose_two_qubit_interaction_into_four_fsim_gates: wrong product or more than 4 FSim gates', dict(rep, impl_out=[[repr(o) for o in ops][:30]], spec_out=['<= 4 FSim, product = input']))
+                ctx.report_witness('synth:fsim', 'decompose_two_qubit_interaction_into_four_fsim_gates: wrong product or more than 4 FSim gates', dict(rep, impl_out=[[repr(o) for o in ops][:30], repr(fs), repr(np.round(got, 7).tolist())], spec_out=['<= 4 FSim, product = input']))
         except ValueError as e:
             ctx.count('synth_rejected', 'fsim:' + str(e)[:40])
         # Mølmer–Sørensen target
